@@ -153,7 +153,7 @@ MC_ACTIONS = ["HsOver", "HsDone", "TakeLeftHeader", "RecvH", "ParseHeader", "Tak
 
 def model_check(chk):
     cfg = "mc/MC_Framing_quick.cfg" if chk.quick else "mc/MC_Framing.cfg"
-    r = core.tlc("mc/MC_Framing.tla", cfg, coverage=True, workers=6, timeout=3000)
+    r = core.tlc("mc/MC_Framing.tla", cfg, coverage=True, workers=4, timeout=3000)
     if r.violation or not r.ok:
         raise core.ToolError("Framing.tla violates its own invariants (specification error):\n%s" % (r.violation or r.raw_tail)[:3000])
     check_coverage(r, MC_ACTIONS, "MC_Framing")
@@ -225,7 +225,7 @@ def nontrivial(reset):
 def conformance(chk, pid, hs, origin, obs_path, seed_info):
     scenarios = split_scenarios(obs_path)
     mism, rs = validate_sequential("trace/FramingTrace.tla", "trace/FramingTrace.cfg", scenarios, chk.work, origin,
-                                   shards=8 if origin == "enum" else 4)
+                                   shards=6 if origin == "enum" else 2)
     for r in rs:
         add_tlc(chk, r)
     with _LOCK:
@@ -249,7 +249,7 @@ def run(pid, tier, replay):
     def enum_part():
         cases = chk.path("cases.ndjson")
         g, n = core.tlc_generate("gen/Gen_Framing.tla", "gen/Gen_Framing_quick.cfg" if quick else "gen/Gen_Framing_thorough.cfg",
-                                 cases, timeout=3000, workers=6)
+                                 cases, timeout=3000, workers=4)
         core.log("[gen] %d cases in %.1fs" % (n, g.wall))
         obs = chk.path("obs_enum.ndjson")
         import time
@@ -267,7 +267,7 @@ def run(pid, tier, replay):
                 chk.sample(sample_of(s))
 
     def rand_part():
-        nr = 600 if quick else 40000
+        nr = 400 if quick else 40000
         obs = chk.path("obs_rand.ndjson")
         args = ["framing-rand", nr, chk.seed, obs, 6 if quick else 20, 300 if quick else 3000, 0 if quick else 2000]
         core.run_bin(hs, args, timeout=3000)
